@@ -62,8 +62,13 @@ def run(ck):
             k = rng.choice([1, 1, 2, 3, 5])
         else:
             c, sims, stim, reuse, strip, k = targeted[i - ncirc]
+        # every third case (and the targeted ones) on a simulator object that has already simulated another batch
+        used = i % 3 == 1 or i >= ncirc
+        lc.WARM['on'] = used
         res, err = sk.safe(lc.run_logicsim, c, 2, stim, reuse, strip, k)
-        desc = {'circuit': cg.describe(c), 'c_reuse': reuse, 'strip_forks': strip, 'cycles': k, 'stimulus': stim.tolist()}
+        lc.WARM['on'] = False
+        desc = {'circuit': cg.describe(c), 'c_reuse': reuse, 'strip_forks': strip, 'cycles': k, 'stimulus': stim.tolist(), 'used_simulator': used}
+        ck.count(int(used), 'used-simulator rounds')
         ck.count(sims, f'sims={sims}')
         ck.count(0, f'cycles={k}')
         if err is not None:
@@ -156,7 +161,9 @@ def replay(rp):
     inp = rp['input']
     c = cg.from_description(inp['circuit'])
     stim = np.array(inp['stimulus'], dtype=np.uint8)
+    lc.WARM['on'] = bool(inp.get('used_simulator'))
     res, err = sk.safe(lc.run_logicsim, c, 2, stim, inp['c_reuse'], inp['strip_forks'], inp['cycles'])
+    lc.WARM['on'] = False
     if err is not None:
         return True
     sim, s1, s0 = res
